@@ -299,6 +299,15 @@ func sqlScenarios(prop string, thorough bool) []*sqlScenario {
 			add("update||update||point-read", one(updV("w1", 2)), one(updV("w2", 2)), one(point(2)))
 			add("txn(insert,delete)||range-read", txn(ins(5, "n1"), del(2)), one(rng))
 		}
+	case "C19":
+		// writers side by side on the same heap page / index nodes (no functional oracle: race detection only)
+		add("insert||insert", one(ins(7, "n1")), one(ins(8, "n2")))
+		add("delete||insert", one(del(1)), one(ins(7, "n2")))
+		add("update-grow||insert", one(updV("grow-grow-grow-grow-grow-grow-grow-grow", 2)), one(ins(7, "n2")))
+		add("update||update(other row)", one(updV("w1", 1)), one(updV("w2", 3)))
+		add("delete||delete(other row)", one(del(1)), one(del(3)))
+		add("txn(insert,delete)||txn(update,insert)", txn(ins(7, "n1"), del(1)), txn(updV("w2", 3), ins(8, "n2")))
+		add("key-update||range-read", one(&Stmt{Kind: "update", Table: "t", Set: []SetItem{{"k", k(20)}}, Where: Leaf{"k", "=", k(2)}}), one(rng))
 	case "C05":
 		add("lost-update", txn(point(2), updV("w1", 2)), txn(point(2), updV("w2", 2)))
 		add("write-skew", txn(point(1), updV("w1", 2)), txn(point(2), updV("w2", 1)))
